@@ -64,6 +64,52 @@ type c14Load struct {
 	Expect string // "ok" | "fail" | "either"
 	Reader int    // fault offset (-1: none)
 	RKind  int
+	Add    func() []ggql.Type // when set the load is Root.AddTypes(Add()...) (fresh type objects for every root)
+}
+
+// apply performs the load on a root (without reader faults).
+func (l c14Load) apply(root *ggql.Root) (err error) {
+	if l.Add != nil {
+		return root.AddTypes(l.Add()...)
+	}
+	return root.ParseString(l.Text)
+}
+
+// c14AddTypes: loads through the Go API. Types are built fresh on every call; references are *ggql.Ref like the parser makes them.
+func c14AddTypes(r *rand.Rand, base *model.Schema, tag string) c14Load {
+	ref := func(n string) ggql.Type { return &ggql.Ref{Base: ggql.Base{N: n}} }
+	obj := func(name string, fields ...string) func() ggql.Type {
+		return func() ggql.Type {
+			o := &ggql.Object{Base: ggql.Base{N: name}}
+			for i := 0; i+1 < len(fields); i += 2 {
+				_ = o.AddField(&ggql.FieldDef{Base: ggql.Base{N: fields[i]}, Type: ref(fields[i+1])})
+			}
+			return o
+		}
+	}
+	emptyEnum := func() ggql.Type { return &ggql.Enum{Base: ggql.Base{N: "ZzEmptyEnum" + tag}} }
+	rootName := []string{"Mutation", "Subscription"}[r.Intn(2)]
+	type cand struct {
+		kind, text, expect string
+		mk                 []func() ggql.Type
+	}
+	cands := []cand{
+		{"addtypes-fail-validation-with-root-type", "object " + rootName + " {zzRoot: Int}, enum ZzEmptyEnum (no values)", "fail", []func() ggql.Type{obj(rootName, "zzRoot"+tag, "Int"), emptyEnum}},
+		{"addtypes-fail-undefined-ref-with-root-type", "object " + rootName + " {zzRoot: Int}, object ZzBad {f: NopeTypeZz}", "fail", []func() ggql.Type{obj(rootName, "zzRoot"+tag, "Int"), obj("ZzBad"+tag, "f", "NopeTypeZz")}},
+		{"addtypes-fail-duplicate", "object ZzNew {a: Int}, union Query (duplicate name)", "fail", []func() ggql.Type{obj("ZzNew"+tag, "a", "Int"), func() ggql.Type { return &ggql.Union{Base: ggql.Base{N: "Query"}} }}},
+		{"addtypes-fail-reserved-name", "object ZzNew {a: Int}, object ZzRes {__x: Int}", "fail", []func() ggql.Type{obj("ZzNew"+tag, "a", "Int"), obj("ZzRes"+tag, "__x", "Int")}},
+		{"addtypes-fail-empty-object", "object " + rootName + " {zzRoot: String}, object ZzEmpty {}", "fail", []func() ggql.Type{obj(rootName, "zzRoot"+tag, "String"), obj("ZzEmpty" + tag)}},
+		{"addtypes-valid", "object ZzOk {a: Int, b: Query}", "either", []func() ggql.Type{obj("ZzOk"+tag, "a", "Int", "b", "Query")}},
+		{"addtypes-valid-root-type", "object " + rootName + " {zzRoot: Int}", "either", []func() ggql.Type{obj(rootName, "zzRoot"+tag, "Int")}},
+	}
+	cd := cands[r.Intn(len(cands))]
+	return c14Load{Kind: cd.kind, Text: "[AddTypes] " + cd.text, Expect: cd.expect, Reader: -1, Add: func() []ggql.Type {
+		var out []ggql.Type
+		for _, m := range cd.mk {
+			out = append(out, m())
+		}
+		return out
+	}}
 }
 
 // c14ValidFragments produces definitions that are valid on top of the base schema (and of each other when names are fresh).
@@ -224,7 +270,7 @@ func runC14(c *run.Ctx) {
 			continue
 		}
 		var hist []string
-		var good []string
+		var good []c14Load
 		nontriv := false
 		bad := false
 		steps := 3 + r.Intn(6)
@@ -238,7 +284,10 @@ func runC14(c *run.Ctx) {
 			tag := fmt.Sprintf("S%d", st)
 			var load c14Load
 			load.Reader = -1
-			switch k := r.Intn(10); {
+			switch k := r.Intn(12); {
+			case k >= 10: // a load through the Go API
+				load = c14AddTypes(r, base, tag)
+				nontriv = nontriv || load.Expect == "fail"
 			case k < 5: // failing document after some valid content
 				f := c14Failures[r.Intn(len(c14Failures))]
 				if dyn := c14DynamicFailures(r, base, tag); len(dyn) > 0 && r.Intn(3) == 0 {
@@ -268,7 +317,7 @@ func runC14(c *run.Ctx) {
 				if load.Reader >= 0 {
 					lerr = root.ParseReader(&faultyReader{data: []byte(load.Text), at: load.Reader, kind: load.RKind})
 				} else {
-					lerr = root.ParseString(load.Text)
+					lerr = load.apply(root)
 				}
 			})
 			c.Bucket("load_kind", load.Kind)
@@ -290,13 +339,13 @@ func runC14(c *run.Ctx) {
 			if lerr == nil {
 				// a successful load: the shadow root gets it too
 				var serr error
-				run.Protect(func() { serr = shadow.ParseString(load.Text) })
+				run.Protect(func() { serr = load.apply(shadow) })
 				if serr != nil {
 					rep("c14-shadow-diverges", "the same document loads on the history root but not on the shadow root that never saw the failed loads: "+serr.Error())
 					break
 				}
 				c.Count("successful_loads", 1)
-				good = append(good, load.Text)
+				good = append(good, load)
 			} else {
 				c.Count("failing_loads", 1)
 				after, oerr := observe(root)
@@ -325,9 +374,10 @@ func runC14(c *run.Ctx) {
 		// a root that receives the successful loads only and was never observed in between (no lazily cached answers)
 		if !bad {
 			fresh, ferr := loadSDL(sdl)
-			for _, gtext := range good {
+			for _, gl := range good {
 				if ferr == nil {
-					run.Protect(func() { ferr = fresh.ParseString(gtext) })
+					gl := gl
+					run.Protect(func() { ferr = gl.apply(fresh) })
 				}
 			}
 			if ferr != nil {
